@@ -135,7 +135,9 @@ INVALID_PATHS = [
 DONTCARE_PATHS = ['\\uD800', '\\udfff', '\\U0000DC00', 'a\x01b', '\x7f']
 VALID_SIZES = ['0', '1', '12', '12345', '007', str(2 ** 64), str(2 ** 31)]
 INVALID_SIZES = ['-1', '-12', 'x', '1e3', '1.0', '0x10', '1,0', '١٢a', 'NaN',
-                 '--1', '1-', '1_', '_1', '+', '-', '1__0']
+                 '--1', '1-', '1_', '_1', '+', '-', '1__0',
+                 # "digits" for str.isdigit() that int() refuses
+                 '\u00b2', '1\u00b2', '\u2460', '4\u2080', '\u00b9\u00b2']
 DONTCARE_SIZES = ['+1', '1_0', '-0', '١٢', '１２', '+0_0']
 VALID_TS = ['2020-01-01T00:00:00Z', '1999-12-31T23:59:59Z',
             '2024-02-29T12:00:00Z', '9999-12-31T23:59:59Z',
